@@ -2,9 +2,11 @@
 import itertools
 import json
 from fractions import Fraction
+import numpy as np
 import core
 import fpgen
-from fpgen import obs, lit, attempt, result_lit, build
+from fpgen import obs, lit, attempt, result_lit
+from props import c11_cov
 
 IMPORTS = ['From Coq Require Import QArith.', 'From E3FP Require Import Base.Prelude Base.ZSet Model.Fprint.']
 TOL = '(Qmake 1 1000000000)'
@@ -16,6 +18,9 @@ BIT_OPS = {  # name -> (python action on (a, b), model function)
     # reflected forms of the commutative operators, called the way Python would call them: b.__rop__(a) for a op b
     'ror': (lambda a, b: b.__ror__(a), 'fp_or'), 'rand': (lambda a, b: b.__rand__(a), 'fp_and'),
     'rxor': (lambda a, b: b.__rxor__(a), 'fp_xor'), 'radd': (lambda a, b: b.__radd__(a), 'fp_add'),
+    # __rsub__ is never dispatched by Python for two fingerprints (the plain method never returns NotImplemented); it is coded as
+    # self.__sub__(other), and is exercised by the explicit call only, against what the code says: receiver minus argument
+    'rsub_explicit': (lambda a, b: a.__rsub__(b), 'fp_sub'),
 }
 
 
@@ -38,6 +43,19 @@ for _n, _s, _m in (('ior', '|', 'fp_or'), ('iand', '&', 'fp_and'), ('ixor', '^',
 
 REFLECTED = {'ror', 'rand', 'rxor', 'radd'}
 SCALAR_FORMS = ('mul', 'rmul', 'imul', 'div', 'idiv', 'floordiv', 'ifloordiv')
+# the Python-2 method names are still defined (and __truediv__ delegates to __div__): explicit calls
+SCALAR_ALL = SCALAR_FORMS + ('div_explicit', 'idiv_explicit')
+
+
+def build(spec):
+    """fpgen.build, or an equal-valued object of another provenance (spec['via'], see c11_cov.build_via)."""
+    return c11_cov.build_via(spec) if spec.get('via') else fpgen.build(spec)
+
+
+def scalar_action(a, x, form):
+    return {'mul': lambda: a * x, 'rmul': lambda: x * a, 'div': lambda: a / x, 'floordiv': lambda: a // x,
+            'imul': lambda: _iscalar(a, '*', x), 'idiv': lambda: _iscalar(a, '/', x), 'ifloordiv': lambda: _iscalar(a, '//', x),
+            'div_explicit': lambda: a.__div__(x), 'idiv_explicit': lambda: a.__idiv__(x)}[form]
 
 
 def _obs_result(r, none_ok=False):
@@ -46,10 +64,14 @@ def _obs_result(r, none_ok=False):
         return r
     if none_ok and r[1] is None:
         return ('ok', None)
+    if fpgen.kind_of(r[1]) == 'K?':
+        return ('bad', 'result is not a fingerprint: %s %.200r' % (type(r[1]).__name__, r[1]))
     try:
         return ('ok', obs(r[1]))
     except (ValueError, OverflowError) as e:
         return ('bad', 'result has non-finite counts: %r (%s)' % (dict(r[1].counts), e))
+    except Exception as e:  # noqa
+        return ('bad', 'result cannot be observed: %s: %s' % (type(e).__name__, e))
 
 
 class Runner(object):
@@ -62,7 +84,15 @@ class Runner(object):
         self.found_input = False
         self.dist = {'bit_pairs_exhaustive': 0, 'sampled_pairs': 0, 'scalar': 0, 'scalar_zero': 0, 'reflected_scalar_division': 0,
                      'batch': 0, 'batch_mixed_length': 0, 'batch_bad_weights': 0, 'negative_positions': 0,
-                     'errors_expected': 0, 'by_kind': {}}
+                     'errors_expected': 0, 'by_kind': {},
+                     # streams of c11_cov.py
+                     'length_mismatch_grid': 0, 'mixed_class_pairs': 0, 'value_classes_pairs': 0, 'aliased_pairs': 0, 'edge_pairs': 0,
+                     'by_provenance': {}, 'by_flavour': {}, 'scalar_value_classes': 0, 'by_scalar_type': {},
+                     'batch_value_classes': 0, 'batch_aliased': 0, 'batch_signed_weights': 0, 'batch_negative_weight_sum': 0,
+                     'batch_zero_weight': 0, 'by_weight_type': {}, 'batch_edge_cases': 0, 'sum_counts_dict': 0, 'diff_counts_dict': 0,
+                     'chains': 0, 'chain_steps': 0, 'rmul_numpy_scalar_left': 0,
+                     'negative_positions_other_functions': 0}
+        self.last = None
 
     def add_case(self, key, expr, payload, model_out):
         self.cases.append((key, expr))
@@ -73,14 +103,25 @@ class Runner(object):
         self.found_input = True
         self.ctx.fail(what, payload, finding_key=key)
 
-    # -- a op b in one of the 14 forms
-    def binop(self, tag, sa, sb, opname):
+    BIN_FORMS = sorted(BIT_OPS)
+    SCALAR_ALL = SCALAR_ALL
+    build = staticmethod(build)
+
+    # -- a op b in one of the 15 forms (alias: the same object on both sides)
+    def binop(self, tag, sa, sb, opname, alias=False):
+        sb = sa if alias else sb
+        rp = {'type': 'binop', 'tag': tag, 'sa': fpgen.spec_to_json(sa), 'sb': fpgen.spec_to_json(sb), 'opname': opname, 'alias': alias}
+        a = build(sa)
+        b = a if alias else build(sb)
+        return self.binop_objs(tag, a, b, opname, rp)
+
+    def binop_objs(self, tag, a, b, opname, rp):
         ctx, dist = self.ctx, self.dist
-        rp = {'type': 'binop', 'tag': tag, 'sa': fpgen.spec_to_json(sa), 'sb': fpgen.spec_to_json(sb), 'opname': opname}
         pyf, mf = BIT_OPS[opname]
-        a, b = build(sa), build(sb)
         oa, ob = obs(a), obs(b)
-        r = _obs_result(attempt(lambda: pyf(a, b)))
+        raw = attempt(lambda: pyf(a, b))
+        self.last = raw[1] if raw[0] == 'ok' else None
+        r = _obs_result(raw)
         if r[0] == 'bad':
             return self.fail('operator %s: %s' % (opname, r[1]), {'op': opname, 'a': fpgen.obs_json(obs(a)), 'b': fpgen.obs_json(obs(b)), 'replay': rp}, 'op:' + opname)
         # operands unchanged (part of the property, decided on the implementation directly)
@@ -93,35 +134,47 @@ class Runner(object):
         cmp_ = 'fp_obs_close %s' % TOL if floaty else 'fp_obs_eqb'
         key = '%s/%s/%d' % (tag, opname, len(self.cases))
         self.add_case(key, 'result_eqb (%s) (%s) %s' % (cmp_, m, result_lit(r)),
-                      {'op': opname, 'a': fpgen.obs_json(oa), 'b': fpgen.obs_json(ob),
+                      {'op': opname, 'a': fpgen.obs_json(oa), 'b': fpgen.obs_json(ob), 'same_object': a is b,
                        'impl': fpgen.obs_json(r[1]) if r[0] == 'ok' else r[1], 'replay': rp}, m)
-        nontriv = bool(oa['idx']) and bool(ob['idx']) and oa['idx'] != ob['idx']
-        ctx.count((opname, oa['kind'], ob['kind'], oa['bits'], tuple(oa['idx']), tuple(ob['idx']), str(oa['cnt']), str(ob['cnt'])), nontriv)
+        nontriv = bool(oa['idx']) and bool(ob['idx']) and (oa['idx'] != ob['idx'] or a is b)
+        ctx.count((opname, oa['kind'], ob['kind'], oa['bits'], tuple(oa['idx']), tuple(ob['idx']), str(oa['cnt']), str(ob['cnt']), a is b), nontriv)
         dist['by_kind'][oa['kind'] + '/' + ob['kind']] = dist['by_kind'].get(oa['kind'] + '/' + ob['kind'], 0) + 1
         if r[0] == 'err':
             dist['errors_expected'] += 1
         return r
 
-    # -- a * x, x * a, a / x, a // x and their in-place forms
-    def scalar(self, sa, x, form):
+    # -- a * x, x * a, a / x, a // x, their in-place forms and the explicit __div__ / __idiv__; xt: numeric type of the scalar
+    def scalar(self, sa, x, form, xt='int'):
+        rp = {'type': 'scalar', 'sa': fpgen.spec_to_json(sa), 'x': x, 'form': form, 'xt': xt}
+        return self.scalar_objs(build(sa), x, form, xt, rp)
+
+    def scalar_objs(self, a, x, form, xt, rp):
         ctx = self.ctx
-        rp = {'type': 'scalar', 'sa': fpgen.spec_to_json(sa), 'x': x, 'form': form}
-        a = build(sa)
         oa = obs(a)
-        act = {'mul': lambda: a * x, 'rmul': lambda: x * a, 'div': lambda: a / x, 'floordiv': lambda: a // x,
-               'imul': lambda: _iscalar(a, '*', x), 'idiv': lambda: _iscalar(a, '/', x), 'ifloordiv': lambda: _iscalar(a, '//', x)}[form]
-        r = _obs_result(attempt(act))
+        xv = c11_cov.XTYPES[xt](x)
+        if form == 'rmul' and xt.startswith('np.'):
+            # x * a with a NumPy scalar on the left: NumPy first tries to read `a` as a sequence
+            raw, walked = c11_cov.count_sequence_walk(a, scalar_action(a, xv, form))
+            self.dist['rmul_numpy_scalar_left'] += 1
+            if walked >= oa['bits'] > 0:
+                self.fail('x * a with a NumPy scalar x examined every position of the declared length before multiplying: %d __getitem__ calls '
+                          'for a fingerprint of length %d (time proportional to the length: hours at the default 2^32)' % (walked, oa['bits']),
+                          {'a': fpgen.obs_json(oa), 'x': x, 'x_type': xt, 'op': form, 'getitem_calls': walked, 'replay': rp}, c11_cov.KEY_NUMPY_LEFT)
+        else:
+            raw = attempt(scalar_action(a, xv, form))
+        self.last = raw[1] if raw[0] == 'ok' else None
+        r = _obs_result(raw)
         if r[0] == 'bad':
-            return self.fail('scalar operator %s: %s' % (form, r[1]), {'op': form, 'a': fpgen.obs_json(oa), 'x': x, 'replay': rp}, 'op:' + form)
+            return self.fail('scalar operator %s: %s' % (form, r[1]), {'op': form, 'a': fpgen.obs_json(oa), 'x': x, 'x_type': xt, 'replay': rp}, 'op:' + form)
         if obs(a) != oa:
-            self.fail('operand changed by scalar operator %s' % form, {'a': fpgen.obs_json(oa), 'x': x, 'op': form, 'replay': rp},
+            self.fail('operand changed by scalar operator %s' % form, {'a': fpgen.obs_json(oa), 'x': x, 'x_type': xt, 'op': form, 'replay': rp},
                       'operand-mutated:' + form)
         mf = 'fp_mul' if 'mul' in form else 'fp_floordiv' if 'floordiv' in form else 'fp_div'
         m = '%s %s (inject_Z %s)' % (mf, lit(oa), core.zlit(x))
         key = 'sc/%s/%d' % (form, len(self.cases))
         self.add_case(key, 'result_eqb (fp_obs_close %s) (%s) %s' % (TOL, m, result_lit(r)),
-                      {'op': form, 'a': fpgen.obs_json(oa), 'x': x, 'impl': fpgen.obs_json(r[1]) if r[0] == 'ok' else r[1], 'replay': rp}, m)
-        ctx.count((form, x, str(oa)), bool(oa['idx']) and x > 1)
+                      {'op': form, 'a': fpgen.obs_json(oa), 'x': x, 'x_type': xt, 'impl': fpgen.obs_json(r[1]) if r[0] == 'ok' else r[1], 'replay': rp}, m)
+        ctx.count((form, x, xt, str(oa)), bool(oa['idx']) and x > 1)
         self.dist['scalar'] += 1
         self.dist['scalar_zero'] += (x == 0)
         if r[0] == 'err':
@@ -156,27 +209,45 @@ class Runner(object):
                       {'a': fpgen.obs_json(oa), 'x': x, 'op': form, 'impl': fpgen.obs_json(obs(r[1])),
                        'pointwise_x_over_count': [[k, str(v)] for k, v in sorted(want.items())], 'replay': rp}, KEY_RDIV)
 
-    # -- add(fprints, weights) / mean(fprints, weights)
-    def batch(self, specs, ws, which):
+    # -- add(fprints, weights) / mean(fprints, weights); order: positions into the built objects (the same object several times);
+    #    container / wtype / style: how the arguments are handed over
+    def batch(self, specs, ws, which, order=None, container='list', wtype='floats', style='kw'):
+        rp = {'type': 'batch', 'specs': [fpgen.spec_to_json(s) for s in specs], 'ws': None if ws is None else [str(w) for w in ws], 'which': which,
+              'order': order, 'container': container, 'wtype': wtype, 'style': style}
+        built = [build(s) for s in specs]
+        fps = built if order is None else [built[i] for i in order]
+        return self.batch_objs(fps, ws, which, rp, container, wtype, style)
+
+    def batch_objs(self, fps, ws, which, rp, container='list', wtype='floats', style='kw'):
         import e3fp.fingerprint.fprint as FP
-        rp = {'type': 'batch', 'specs': [fpgen.spec_to_json(s) for s in specs], 'ws': None if ws is None else [str(w) for w in ws], 'which': which}
-        fps = [build(s) for s in specs]
         obss = [obs(f) for f in fps]
-        fws = None if ws is None else [float(w) for w in ws]
-        r = _obs_result(attempt(lambda: (FP.add if which == 'add' else FP.mean)(fps, weights=fws)), none_ok=True)
+        fws, wq = c11_cov.conv_weights(ws, wtype)
+        arg = tuple(fps) if container == 'tuple' else list(fps)
+        f = FP.add if which == 'add' else FP.mean
+        if style == 'noarg' and ws is None:
+            raw = attempt(lambda: f(arg))
+        elif style == 'pos':
+            raw = attempt(lambda: f(arg, fws))
+        else:
+            raw = attempt(lambda: f(arg, weights=fws))
+        self.last = raw[1] if raw[0] == 'ok' else None
+        r = _obs_result(raw, none_ok=True)
+        wshow = None if ws is None else [str(w) for w in wq]
         if r[0] == 'bad':
             return self.fail('batch %s: %s' % (which, r[1]), {'op': 'batch_' + which, 'fps': [fpgen.obs_json(o) for o in obss],
-                             'weights': None if ws is None else [str(w) for w in ws], 'replay': rp}, 'op:batch_' + which)
-        if [obs(f) for f in fps] != obss:
+                             'weights': wshow, 'replay': rp}, 'op:batch_' + which)
+        if [obs(f_) for f_ in fps] != obss:
             self.fail('operand changed by batch %s' % which, {'fps': [fpgen.obs_json(o) for o in obss], 'replay': rp}, 'operand-mutated:batch')
-        wl = 'None' if ws is None else '(Some %s)' % core.listlit([core.qlit(w) for w in ws])
+        wl = 'None' if ws is None else '(Some %s)' % core.listlit([core.qlit(w) for w in wq])
         m = 'batch_%s %s %s' % (which, core.listlit([lit(o) for o in obss]), wl)
         exp = '(Raises %s)' % r[1] if r[0] == 'err' else '(Ok None)' if r[1] is None else '(Ok (Some %s))' % lit(r[1])
         key = 'b/%s/%d' % (which, len(self.cases))
         self.add_case(key, 'result_eqb (option_eqb (fp_obs_close %s)) (%s) %s' % (TOL, m, exp),
-                      {'op': 'batch_' + which, 'fps': [fpgen.obs_json(o) for o in obss], 'weights': None if ws is None else [str(w) for w in ws],
+                      {'op': 'batch_' + which, 'fps': [fpgen.obs_json(o) for o in obss], 'weights': wshow,
+                       'same_object_positions': [[i, j] for i in range(len(fps)) for j in range(i) if fps[i] is fps[j]],
+                       'container': container, 'weights_type': wtype, 'call': style,
                        'impl': (fpgen.obs_json(r[1]) if r[1] is not None else None) if r[0] == 'ok' else r[1], 'replay': rp}, m)
-        self.ctx.count((which, str(obss), str(ws)), len(specs) > 1 and any(o['idx'] for o in obss))
+        self.ctx.count((which, str(obss), str(ws), container, wtype, style, str(rp.get('order'))), len(fps) > 1 and any(o['idx'] for o in obss))
         self.dist['batch'] += 1
         if r[0] == 'err':
             self.dist['errors_expected'] += 1
@@ -267,6 +338,9 @@ def run(ctx):
             R.binop('neg', specs[0], specs[1], opname)
             dist['negative_positions'] += 1
 
+    # 6. the input classes and call sequences of the coverage audit (work/coverage_C11.md)
+    c11_cov.part(R, ctx)
+
     cases, payloads = R.cases, R.payloads
     for k in cases[:3] + cases[len(cases) // 2:len(cases) // 2 + 2] + cases[-2:]:
         pl = {kk: v for kk, v in payloads[k[0]].items() if kk != 'replay'}
@@ -275,11 +349,20 @@ def run(ctx):
     ctx.coverage['rule'] = ('every pair of subsets for bits<=%d x %d operator forms (plain, reflected-commutative, in-place), plus seeded random pairs of '
                             'every kind up to 2^32 bits, scalar * / // with positive integers (and 0 for / and //), x / a and x // a on the implementation, '
                             'batch add/mean with and without weights incl. members of different lengths, wrong numbers of weights and zero weight sums; '
-                            'a case is non-trivial when both operands are non-empty and differ (scalar: x>1; batch: >=2 members); distinct by full input'
+                            'a case is non-trivial when both operands are non-empty and differ or are the same object (scalar: x>1; batch: >=2 members); '
+                            'distinct by full input.  Coverage extension (c11_cov.py): a grid of length mismatches for every form, operands of different '
+                            'classes, count values 0 / negative / large / non-dyadic, operands of other provenance (constructor, copy, pickle, numpy keys, '
+                            'fold cache), the same object on both sides and repeated in a batch, scalars of numpy / float types and up to 2^31, batches as '
+                            'tuples with weights as tuples / arrays / integers incl. zero and negative weights with sums of either sign, '
+                            'sum_counts_dict / diff_counts_dict against wsum / cmap_pointwise, and chains of operations on one pool of objects'
                             % (ctx.n(3, 4), len(BIT_OPS)))
     ctx.coverage['input_distribution'] = dist
     ctx.assumptions += ['NumPy set routines (union1d/intersect1d/setdiff1d/setxor1d/unique) and dict arithmetic behave as modelled; exercised by the correspondence only',
-                        '__rsub__ is not exercised: with two fingerprint operands Python never calls it (the plain method never returns NotImplemented)',
+                        '__rsub__ is never dispatched by Python with two fingerprint operands (the plain method never returns NotImplemented); the explicit '
+                        'call a.__rsub__(b) is compared with what the code says (a - b), as are the explicit a.__div__(x) / a.__idiv__(x)',
+                        'double rounding: results with float counts are compared within a relative 1e-9; the generators keep |count * weight| small '
+                        'enough in weighted sums with weights of mixed sign that the implementation\'s summation error stays below that, and apply // to '
+                        'float counts only when they are dyadic (int(v / x) is then decided identically in double and exact arithmetic)',
                         'x / a and x // a (reflected scalar division) are reachable and implemented as a / x and a // x: checked on the implementation against '
                         'the pointwise reading and reported under the finding key %s; x * a is checked against the model (fp_mul)' % KEY_RDIV]
     if not ok:
@@ -300,13 +383,16 @@ def replay(ctx, path):
     R = Runner(ctx)
     sj = fpgen.spec_from_json
     if rp['type'] == 'binop':
-        R.binop(rp['tag'], sj(rp['sa']), sj(rp['sb']), rp['opname'])
+        R.binop(rp['tag'], sj(rp['sa']), sj(rp['sb']), rp['opname'], alias=rp.get('alias', False))
     elif rp['type'] == 'scalar':
-        R.scalar(sj(rp['sa']), rp['x'], rp['form'])
+        R.scalar(sj(rp['sa']), rp['x'], rp['form'], xt=rp.get('xt', 'int'))
     elif rp['type'] == 'rscalar':
         R.rscalar(sj(rp['sa']), rp['x'], rp['form'])
     elif rp['type'] == 'batch':
-        R.batch([sj(s) for s in rp['specs']], None if rp['ws'] is None else [Fraction(w) for w in rp['ws']], rp['which'])
+        R.batch([sj(s) for s in rp['specs']], None if rp['ws'] is None else [Fraction(w) for w in rp['ws']], rp['which'], order=rp.get('order'),
+                container=rp.get('container', 'list'), wtype=rp.get('wtype', 'floats'), style=rp.get('style', 'kw'))
+    elif c11_cov.replay_case(R, rp):
+        pass
     else:
         print('unknown replay type %r' % rp['type'])
         return 2
